@@ -485,7 +485,7 @@ class StubDeme2(StubDeme):
 
 def make_level(engine, problem, lsc, gens, box, desc):
     rng = box[:, 1] - box[:, 0]
-    std = float(np.min(rng)) / 6.0
+    std = float(np.min(rng)) * desc.get("std_factor", 1.0 / 6.0)
     mstd = float(np.mean(rng)) / 4.0
     pop = desc.get("pop", 6)
     if engine in SEA_FAMILY:
@@ -515,7 +515,9 @@ def make_level(engine, problem, lsc, gens, box, desc):
     if engine == "CMAs":
         return CMALevelConfig(problem=problem, lsc=lsc, generations=gens, sigma0=None, set_stds=True)
     if engine == "LOC":
-        return LocalOptimizationConfig(problem=problem, lsc=lsc, maxiter=desc.get("loc_maxiter", 5))
+        # scipy accepts any capitalisation of the method name; desc["loc_method"] exercises that
+        kw = {"method": desc["loc_method"]} if desc.get("loc_method") else {}
+        return LocalOptimizationConfig(problem=problem, lsc=lsc, maxiter=desc.get("loc_maxiter", 5), **kw)
     if engine == "LHS":
         return LHSLevelConfig(problem=problem, lsc=lsc, pop_size=5)
     if engine == "SOB":
